@@ -32,6 +32,7 @@ type c12World struct {
 	path string
 	srv  bus.Server
 	pp   bus.Service // the PingPong service: scenarios add objects that may be terminated
+	impl *sgImpl     // its object: the harness can emit its signal
 }
 
 // an object that takes its time: requests queue up in front of it
@@ -46,14 +47,15 @@ func c12Start() (*c12World, error) {
 	if err != nil {
 		return nil, err
 	}
-	pp, err := srv.NewService("PingPong", pong.PingPongObject(&sgImpl{}))
+	impl := &sgImpl{}
+	pp, err := srv.NewService("PingPong", pong.PingPongObject(impl))
 	if err != nil {
 		return nil, err
 	}
 	if _, err := srv.NewService("Bomb", space.BombObject(&prBomb{})); err != nil {
 		return nil, err
 	}
-	return &c12World{addr: addr, path: strings.TrimPrefix(addr, "unix://"), srv: srv, pp: pp}, nil
+	return &c12World{addr: addr, path: strings.TrimPrefix(addr, "unix://"), srv: srv, pp: pp, impl: impl}, nil
 }
 
 // raw connection of the hostile client, authenticated
@@ -326,6 +328,36 @@ func childC12(a []string) string {
 		if r.Bool() {
 			c.Close()
 		}
+	case "tracing-emit":
+		// the tracing of an object is on when a client subscribes to its signal: what is sent to that subscriber is
+		// traced too.  The object emits (from a goroutine of the process that owns it) while the client goes on calling.
+		c, err := w.rawConn()
+		if err != nil {
+			return "setup-error:" + err.Error()
+		}
+		go c12Drain(c, 6*time.Second)
+		c12Frame(c, qnet.Call, 2, 1, 85, 100, []byte{1}) // enableTrace(true)
+		c12Frame(c, qnet.Call, 2, 1, 0, 101, append(append(le32(1), le32(102)...), le64(9101)...))
+		time.Sleep(100 * time.Millisecond)
+		emitted := make(chan struct{})
+		go func() {
+			defer close(emitted)
+			for i := 0; i < 300; i++ {
+				w.impl.h.SignalPong("e")
+			}
+		}()
+		for i := uint32(0); i < 300; i++ {
+			c12Frame(c, qnet.Call, 2, 1, 100, 200+i, svString("traced")) // hello
+		}
+		select {
+		case <-emitted:
+		case <-time.After(10 * time.Second):
+			return "fail:stuck the object's own emissions do not return while a traced client calls"
+		}
+		time.Sleep(200 * time.Millisecond)
+		if res := w.probe(); res != "ok" {
+			return res
+		}
 	case "truncated":
 		// the arguments of every action an object has of its own (subscriptions, meta-object, properties,
 		// statistics, traces) and of the services' methods, cut at every length: as calls and as posts
@@ -573,7 +605,7 @@ func runC12(r *Rand, tier string, o *Out) {
 	if tier == "thorough" {
 		per = 12
 	}
-	for _, sc := range []string{"valid", "subscriptions", "raw", "truncated", "tracing", "unsubscribe-and-leave", "lengths", "flood-reading", "flood-posts", "terminate-busy", "terminate-other", "deep-signature", "disconnects"} {
+	for _, sc := range []string{"valid", "subscriptions", "raw", "truncated", "tracing", "tracing-emit", "unsubscribe-and-leave", "lengths", "flood-reading", "flood-posts", "terminate-busy", "terminate-other", "deep-signature", "disconnects"} {
 		for i := 0; i < per; i++ {
 			line := fmt.Sprintf("c12.run %s %d", sc, r.U64()>>1)
 			if out := o.Do("P", line, true); out != "ok" {
